@@ -3,23 +3,28 @@
 
    conn.go readAndProcessDatagram:   unpackDatagram(buf) -> for each record: processIncomingPacket;
                                      the first error ends the datagram and goes to classifyReadLoopError
-   conn.go classifyReadLoopError:    recordlayer.ErrInvalidPacketLength -> continue (dropped);
-                                     any other non-alert error -> before establishment: stop, the handshake
+   conn.go classifyReadLoopError:    errors of processIncomingPacket (not of unpackDatagram, see recv_dgram):
+                                     a non-alert error -> before establishment: stop, the handshake
                                      fails; after establishment: the error is handed to Read, loop continues
    conn.go handleIncomingPacket:     prepareIncomingPacket (header, future epoch, replay check, decrypt)
                                      -> bufferHandshakeRecord: FragmentBuffer.Push(record) FIRST, for every
-                                        content type; Push refuses EVERYTHING once the buffer is at its limit
-                                        (the limit test precedes the content-type test) => record dropped
+                                        content type; Push passes non-handshake records on and refuses
+                                        handshake records once the buffer is at its limit => record dropped
                                      -> RecordLayer.Unmarshal -> handleRecordContent  (= Recv.dispatch) *)
 From DtlsV Require Import Lib.Bytes Rec.Window Rec.Recv.
 Open Scope N_scope.
 
 (* ---------- the fragment-buffer gate ---------- *)
 
-(* [full]: FragmentBuffer.Push returns ErrFragmentBufferOverflow (size or count limit reached).
-   Every site where Recv.recv hands a prepared record to [dispatch] is behind this gate. *)
-Definition gated (full : bool) (s : rstate) (x : rstate * list out) : rstate * list out :=
-  if full then (s, []) else x.
+(* [full]: the reassembly buffer is at its size or count limit.  FragmentBuffer.Push (as repaired in 826a95e)
+   parses the record header first and returns (false, false, nil) for every record that is not of content
+   type handshake; only then does it apply the limits.  So behind a full buffer a HANDSHAKE record is
+   refused (bufferHandshakeRecord: "defragment failed", record dropped) and every other record goes on to
+   RecordLayer.Unmarshal / handleRecordContent as usual. *)
+Definition is_hs (c : content) : bool := match c with CHs _ _ => true | _ => false end.
+
+Definition gated (full : bool) (s : rstate) (c : content) (x : rstate * list out) : rstate * list out :=
+  if full && is_hs c then (s, []) else x.
 
 Definition recv_fb (W : nat) (lease full : bool) (s : rstate) (w : wire) : rstate * list out :=
   if r_closed s then (s, []) else
@@ -27,16 +32,17 @@ Definition recv_fb (W : nat) (lease full : bool) (s : rstate) (w : wire) : rstat
     (if r_epoch s + 1 <? w_epoch w then s else enqueue lease s w, [])
   else
   if negb (check maxseq48 (get_win W (w_epoch w) (r_wins s)) (w_seq w)) then (s, [])
-  else if w_epoch w =? 0 then gated full s (dispatch W lease s w (w_clear w))
+  else if w_epoch w =? 0 then gated full s (w_clear w) (dispatch W lease s w (w_clear w))
   else
   if negb (r_init s) then (enqueue lease s w, [])
   else if negb (len (r_cid s) =? 0) && negb (w_ctype w =? ct_cid) then (s, [])
-  else if w_ctype w =? ct_ccs then gated full s (dispatch W lease s w (ccs_view (w_clear w)))
+  else if w_ctype w =? ct_ccs then
+    gated full s (ccs_view (w_clear w)) (dispatch W lease s w (ccs_view (w_clear w)))
   else match w_auth w with
        | None => (s, [])
        | Some c =>
            if negb (bytes_eqb (r_cid s) (if w_ctype w =? ct_cid then w_cid w else [])) then (s, [])
-           else gated full s (dispatch W lease s w c)
+           else gated full s c (dispatch W lease s w c)
        end.
 
 (* ---------- the datagram layer ---------- *)
@@ -75,15 +81,12 @@ Fixpoint recv_recs (W : nat) (full : bool) (s : rstate) (rs : list drec) : rstat
       let '(s2, o2) := recv_recs W full s1 rs' in (s2, o1 ++ o2)
   end.
 
-(* [neg]: the endpoint is still in the dual-stack version negotiation loop (conn.go
-   negotiateVersionServer / negotiateVersionClient -> readAndBufferNoFSM): there EVERY error of
-   readAndProcessDatagram ends the handshake, classifyReadLoopError is not consulted *)
-Definition recv_dgram (W : nat) (full neg : bool) (s : rstate) (d : dgram) : rstate * list out :=
+(* conn.go readAndProcessDatagram (as repaired in 5a7ed2c): ANY error of unpackDatagram is logged and the
+   datagram discarded - before and after establishment and in the dual-stack version negotiation loop *)
+Definition recv_dgram (W : nat) (full : bool) (s : rstate) (d : dgram) : rstate * list out :=
   if r_closed s then (s, []) else
   match d with
-  | DEmpty => (s, [])
-  | DLenErr => if neg then (s, [OErr]) else (s, [])
-  | DOtherErr => (s, [OErr])
+  | DEmpty | DLenErr | DOtherErr => (s, [])
   | DRecs rs => recv_recs W full s rs
   end.
 
